@@ -588,4 +588,57 @@ theorem calleesL_reach : ∀ (ss : List S) (f : P), f ∈ calleesL ss → f ∈ 
       · exact Or.inr (calleesL_reach rest f h)
 end
 
+/-! ### the analyses as they run: nothing but `checkedProg`, and all of it when nothing is rejected -/
+
+theorem mem_insertByName (p q : P) (l : List P) : q ∈ insertByName p l ↔ q = p ∨ q ∈ l := by
+  induction l with
+  | nil => simp [insertByName]
+  | cons a r ih =>
+    simp only [insertByName]
+    split
+    · simp
+    · simp only [List.mem_cons, ih]
+      constructor
+      · rintro (h | h | h)
+        · exact Or.inr (Or.inl h)
+        · exact Or.inl h
+        · exact Or.inr (Or.inr h)
+      · rintro (h | h | h)
+        · exact Or.inr (Or.inl h)
+        · exact Or.inl h
+        · exact Or.inr (Or.inr h)
+
+theorem mem_sortByName (q : P) (l : List P) : q ∈ sortByName l ↔ q ∈ l := by
+  induction l with
+  | nil => simp [sortByName]
+  | cons a r ih => simp [sortByName, mem_insertByName, ih]
+
+theorem runAnalyses_sub (chk : P → List Path) (rej : String × Path → Bool) (ps : List P)
+    (x : String × Path) (h : x ∈ runAnalyses chk rej ps) : ∃ p ∈ ps, x ∈ checkedOf chk p := by
+  induction ps with
+  | nil => simp [runAnalyses] at h
+  | cons p r ih =>
+    simp only [runAnalyses] at h
+    split at h
+    · exact ⟨p, by simp, h⟩
+    · rcases List.mem_append.mp h with h | h
+      · exact ⟨p, by simp, h⟩
+      · obtain ⟨q, hq, hx⟩ := ih h
+        exact ⟨q, by simp [hq], hx⟩
+
+theorem runAnalyses_all (chk : P → List Path) (rej : String × Path → Bool) (ps : List P)
+    (hacc : ∀ p ∈ ps, ∀ x ∈ checkedOf chk p, rej x = false) (p : P) (hp : p ∈ ps)
+    (x : String × Path) (hx : x ∈ checkedOf chk p) : x ∈ runAnalyses chk rej ps := by
+  induction ps with
+  | nil => simp at hp
+  | cons a r ih =>
+    have ha : (checkedOf chk a).any rej = false := by
+      rw [List.any_eq_false]
+      intro y hy
+      simp [hacc a (by simp) y hy]
+    simp only [runAnalyses, ha, Bool.false_eq_true, if_false, List.mem_append]
+    rcases List.mem_cons.mp hp with rfl | hp
+    · exact Or.inl hx
+    · exact Or.inr (ih (fun q hq => hacc q (by simp [hq])) hp)
+
 end Exo.Par
